@@ -196,7 +196,8 @@ def check_defaults(job):
 
 
 def check_excludes(job):
-    subset = job
+    subset = tuple(s for s in job if not s.startswith("empty:"))
+    empties = [s[6:] for s in job if s.startswith("empty:")]      # sources that set an explicitly empty list
     box = fsbox.Box("c16e")
     msgs = []
     try:
@@ -205,8 +206,11 @@ def check_excludes(job):
         argv = []
         for p in (pats["cli"] if "cli" in subset else []):
             argv += ["-e", p]
-        st, status, exc = run_main(box, argv, {"input": {"exclude_filters": pats["sfile"]}} if "sfile" in subset else None,
-                                   {"input": {"exclude_filters": pats["user"]}} if "user" in subset else None)
+        st, status, exc = run_main(box, argv,
+                                   {"input": {"exclude_filters": pats["sfile"]}} if "sfile" in subset else
+                                   {"input": {"exclude_filters": []}} if "sfile" in empties else None,
+                                   {"input": {"exclude_filters": pats["user"]}} if "user" in subset else
+                                   {"input": {"exclude_filters": []}} if "user" in empties else None)
         want = sorted(p for s in subset for p in pats[s])
         if st is None:
             msgs.append(f"error: main() failed: {exc}")
@@ -272,7 +276,7 @@ def check_outdir(job):
             "cls": msgs[0].split(":")[0] if msgs else None}
 
 
-WRONG = {"bool": ["maybe", ["a"], 3, 1, 0], "str": [["l"], {"k": "v"}], "list": [{"k": "v"}, 5]}
+WRONG = {"bool": ["maybe", ["a"], 3, 1, 0], "str": [["l"], {"k": "v"}, False, 0, []], "list": [{"k": "v"}, 5]}
 
 
 def check_wrong_type(job):
@@ -321,6 +325,7 @@ def run(ctx):
     pjobs = [(a, b, mode) for a, b in itertools.permutations(opts, 2) for mode in ("cross", "both")]
     ctx.sweep(check_pair, pjobs, space="pairs of options across the two file sources", selftest=2)
     subsets = [s for k in range(0, 4) for s in itertools.combinations(PRIORITY, k)]
+    subsets += [("empty:sfile", "user"), ("empty:sfile", "cli", "user"), ("empty:user", "sfile"), ("empty:sfile", "empty:user", "cli")]
     ctx.sweep(check_excludes, subsets, space="exclude union", selftest=0)
     ojobs = []
     for vk in ("relative", "absolute"):
